@@ -7,12 +7,12 @@ S=$(mktemp -d /tmp/hcov.XXXXXX); trap 'rm -rf "$S"' EXIT
 mkdir -p $S/h; rsync -a --exclude target /verif/harness/ $S/h/
 ln -s /verif/lean $S/lean; ln -s /verif/corpus $S/corpus
 sed -i 's/"cfg(fastcgi_server_verif)"\]/"cfg(fastcgi_server_verif)", "-C", "instrument-coverage"]/' $S/h/.cargo/config.toml
-(cd $S/h && CARGO_NET_OFFLINE=true cargo +nightly build --release --offline 2>&1 | tail -1)
+(cd $S/h && LLVM_PROFILE_FILE=$S/build-%p.profraw CARGO_NET_OFFLINE=true cargo +nightly build --release --offline 2>&1 | tail -1)
 B=$(dirname $(find ~/.rustup/toolchains/nightly-x86_64-unknown-linux-gnu -name llvm-cov | head -1))
 for p in C01 C02 C03 C04 C05 C06 C07 C08 C09 C10 C11 C12 C13 C14 C15 C16 C17 C18 C19 C20; do
   mkdir -p $S/o/$p; (cd $S/h && LLVM_PROFILE_FILE=$S/o/$p.profraw ./target/release/fcgi-harness $p ${TIER:-quick} 1 $S/o/$p >/dev/null 2>&1) || echo "$p: harness exit $?"
 done
-$B/llvm-profdata merge -sparse $S/o/*.profraw -o $S/all.profdata
+$B/llvm-profdata merge -sparse $S/o/C*.profraw -o $S/all.profdata
 $B/llvm-cov report $S/h/target/release/fcgi-harness -instr-profile=$S/all.profdata --sources /repo/src | awk 'NR==1 || /^(parser|protocol|cgi|async_io|lib|ext|TOTAL)/ {printf "%-22s lines %6s missed %5s  %s\n", $1, $8, $9, $10}'
 echo "--- lines never executed (Debug/Display impls filtered) ---"
 $B/llvm-cov show $S/h/target/release/fcgi-harness -instr-profile=$S/all.profdata --sources /repo/src | awk '/^\/repo/ {f=$0} /^ +[0-9]+\| +0\|/ {print f " " $0}' | grep -v "fn fmt\|fmt::\|write!(f\|debug_struct" | cut -c1-160
